@@ -10,7 +10,7 @@
    The interpreter's two deviation switches are section variables; the theorems are then
    instantiated with what tools/leaves/exn.py read off the headers (code_no_catch,
    code_guard_raii), so a header that loses CounterGuard or gains a swallowing catch breaks them. *)
-From Coq Require Import List Arith NArith ZArith Bool Lia.
+From Coq Require Import List Arith NArith ZArith Bool Lia Sorted.
 From EV Require Import ExnQueue.
 From EV.gen Require GenQ GenExn.
 Import ListNotations.
@@ -453,6 +453,254 @@ Section Proofs.
     Qed.
   End TraceC.
 
+
+  (* ================================================================ D: events never taken stay queued, in order *)
+
+  (* every event carries the number it got at enqueue; the queue is always in that order, and its events
+     lie between any lower bound that held before and the number the next enqueue will hand out *)
+  Definition seqs (l : list xevent) : list nat := map xseq l.
+  Definition inb (lo hi : nat) (l : list xevent) : Prop := Forall (fun e => lo <= xseq e /\ xseq e < hi) l.
+  Definition SB (lo : nat) (st : xstate) : Prop :=
+    StronglySorted lt (seqs (xpend st)) /\ inb lo (xnexts st) (xpend st).
+
+  Definition okD (st : xstate) (r : xres) : Prop :=
+    forall lo, lo <= xnexts st -> SB lo st ->
+    match r with
+    | XOk st' => SB lo st' /\ xnexts st <= xnexts st'
+    | XExn _ _ s1 => SB lo s1 /\ xnexts st <= xnexts s1
+    | XErr => True
+    end.
+
+  Lemma okD_pre st st1 r :
+    (forall lo, lo <= xnexts st -> SB lo st -> SB lo st1 /\ xnexts st <= xnexts st1) -> okD st1 r -> okD st r.
+  Proof.
+    intros E H lo L S0. destruct (E lo L S0) as [S1 N1]. specialize (H lo (Nat.le_trans _ _ _ L N1) S1).
+    destruct r; try exact I; destruct H as [H1 H2]; split; try exact H1; lia.
+  Qed.
+
+  Lemma okD_same st st1 r : xpend st1 = xpend st -> xnexts st1 = xnexts st -> okD st1 r -> okD st r.
+  Proof.
+    intros Ep En H. apply (okD_pre st st1 r); [|exact H]. intros lo L S0. unfold SB in *. rewrite Ep, En. split; [exact S0|lia].
+  Qed.
+
+  Lemma ss_app_inv (a b : list nat) : StronglySorted lt (a ++ b) ->
+    StronglySorted lt a /\ StronglySorted lt b /\ (forall x y, In x a -> In y b -> x < y).
+  Proof.
+    induction a as [|h t IH]; simpl; intros H.
+    - split; [constructor|]. split; [exact H|]. intros x y [].
+    - inversion H as [|? ? Ht Hh]; subst. destruct (IH Ht) as [A [B C]].
+      split; [constructor; [exact A|]|]. { rewrite Forall_forall in *. intros x Hx. apply Hh. apply in_or_app. left; exact Hx. }
+      split; [exact B|]. intros x y [Hx|Hx] Hy; [subst; rewrite Forall_forall in Hh; apply Hh; apply in_or_app; right; exact Hy|apply C; assumption].
+  Qed.
+
+  Lemma ss_app (a b : list nat) : StronglySorted lt a -> StronglySorted lt b -> (forall x y, In x a -> In y b -> x < y) ->
+    StronglySorted lt (a ++ b).
+  Proof.
+    induction a as [|h t IH]; simpl; intros A B C; [exact B|].
+    inversion A as [|? ? At Ah]; subst. constructor.
+    - apply IH; [exact At|exact B|]. intros x y Hx Hy. apply C; [right; exact Hx|exact Hy].
+    - rewrite Forall_forall in *. intros x Hx. apply in_app_or in Hx. destruct Hx as [Hx|Hx]; [apply Ah; exact Hx|apply C; [left; reflexivity|exact Hx]].
+  Qed.
+
+  Lemma ss_drop_middle (a : list nat) x b : StronglySorted lt (a ++ x :: b) -> StronglySorted lt (a ++ b).
+  Proof.
+    intros H. destruct (ss_app_inv _ _ H) as [A [B C]]. inversion B as [|? ? Bt Bh]; subst.
+    apply ss_app; [exact A|exact Bt|]. intros u v Hu Hv. apply C; [exact Hu|right; exact Hv].
+  Qed.
+
+  Lemma inb_app lo hi a b : inb lo hi (a ++ b) <-> inb lo hi a /\ inb lo hi b.
+  Proof. unfold inb. apply Forall_app. Qed.
+
+  Lemma inb_weaken lo hi lo' hi' l : lo' <= lo -> hi <= hi' -> inb lo hi l -> inb lo' hi' l.
+  Proof. intros L H. unfold inb. apply Forall_impl. intros e [A B]. split; lia. Qed.
+
+  Lemma SB_weaken lo lo' st : lo' <= lo -> SB lo st -> SB lo' st.
+  Proof. intros L [A B]. split; [exact A|]. eapply inb_weaken; [exact L|apply Nat.le_refl|exact B]. Qed.
+
+  Lemma in_seqs e l : In e l -> In (xseq e) (seqs l).
+  Proof. intros H. unfold seqs. apply in_map. exact H. Qed.
+
+  Section LoopsD.
+    Variable rec : xstate -> list xcmd -> xres.
+    Hypothesis HD : forall st cs, okD st (rec st cs).
+
+    Lemma call_all_D flt k a : forall todo st, okD st (fst (call_all rec flt st k todo a)).
+    Proof.
+      induction todo as [|[h c] rest IH]; intros st; simpl; [intros lo L S0; split; [exact S0|lia]|].
+      destruct (xhas h (if flt then xfilters st else xlst st k)); [|apply IH].
+      destruct flt.
+      - destruct (fbehav c _) as [body verdict] eqn:Eb.
+        match goal with |- context [rec ?S body] => specialize (HD S body); destruct (rec S body) as [s3|t s0 s1|] eqn:Er end; simpl in *.
+        + destruct verdict; simpl.
+          * eapply okD_same; [| |eapply okD_pre; [|apply IH]]; try reflexivity. intros lo L S0. apply (HD lo L S0).
+          * eapply okD_same; [| |exact HD]; reflexivity.
+        + eapply okD_same; [| |exact HD]; reflexivity.
+        + intros lo L S0. exact I.
+      - match goal with |- context [rec ?S ?B] => specialize (HD S B); destruct (rec S B) as [s3|t s0 s1|] eqn:Er end; simpl in *.
+        + eapply okD_same; [| |eapply okD_pre; [|apply IH]]; try reflexivity. intros lo L S0. apply (HD lo L S0).
+        + eapply okD_same; [| |exact HD]; reflexivity.
+        + intros lo L S0. exact I.
+    Qed.
+
+    Lemma dispatch_D st k a : okD st (dispatch rec st k a).
+    Proof.
+      unfold x_dispatch.
+      assert (F := call_all_D true k a (xfilters st) st).
+      destruct (call_all rec true st k (xfilters st) a) as [r b]. simpl in F.
+      destruct r as [st1|t s0 s1|].
+      - destruct b.
+        + assert (L := call_all_D false k a (xlst st1 k) st1).
+          destruct (call_all rec false st1 k (xlst st1 k) a) as [r2 b2]. simpl in *.
+          assert (X : okD st r2) by (eapply okD_pre; [|exact L]; intros lo Hl S0; apply (F lo Hl S0)).
+          destruct r2 as [st2|t s0 s1|]; simpl in *; try exact X. destruct no_catch; exact X.
+        + simpl. exact F.
+      - simpl. destruct no_catch; exact F.
+      - intros lo L S0. exact I.
+    Qed.
+
+    Lemma eval_pred_D st p e : okD st (fst (eval_pred rec st p e)).
+    Proof.
+      unfold x_eval_pred. destruct (pbehav p _) as [body verdict]. simpl.
+      eapply okD_same; [| |apply HD]; reflexivity.
+    Qed.
+
+    Definition okDloop (st : xstate) (lo N : nat) (r : xres * list xevent * nat) : Prop :=
+      match r with
+      | (XOk st', out, _) => SB N st' /\ xnexts st <= xnexts st' /\ StronglySorted lt (seqs out) /\ inb lo N out
+      | (XExn _ _ s1, _, _) => SB N s1 /\ xnexts st <= xnexts s1
+      | (XErr, _, _) => True
+      end.
+
+    Lemma okDloop_pre st st1 lo N r : xnexts st <= xnexts st1 -> okDloop st1 lo N r -> okDloop st lo N r.
+    Proof.
+      intros L H. destruct r as [[r out] i]. destruct r; simpl in *; try exact I.
+      - destruct H as [A [B C]]. split; [exact A|]. split; [lia|exact C].
+      - destruct H as [A B]. split; [exact A|lia].
+    Qed.
+
+    Lemma ploop_D mode p lo N : forall temp st kept idle,
+      N <= xnexts st -> SB N st ->
+      StronglySorted lt (seqs (rev kept ++ temp)) -> inb lo N (rev kept ++ temp) ->
+      okDloop st lo N (ploop rec mode p st temp kept idle).
+    Proof.
+      induction temp as [|e rest IH]; intros st kept idle HN HS Hs Hb; simpl.
+      - rewrite app_nil_r in *. split; [exact HS|]. split; [lia|]. split; assumption.
+      - assert (Hs' : StronglySorted lt (seqs (rev kept ++ rest))).
+        { unfold seqs in *. rewrite map_app in *. simpl in Hs. apply ss_drop_middle in Hs. exact Hs. }
+        assert (Hb' : inb lo N (rev kept ++ rest)).
+        { apply inb_app in Hb. destruct Hb as [B1 B2]. apply inb_app. split; [exact B1|]. inversion B2; assumption. }
+        assert (GO : forall st1, N <= xnexts st1 -> SB N st1 -> xnexts st <= xnexts st1 ->
+                  okDloop st lo N
+                    (match dispatch rec st1 (xkey e) (xarg e) with
+                     | XOk st2 => ploop rec mode p (xu_live st2 (xlive st2 - 1)%Z) rest kept (S idle)
+                     | XExn t s0 s1 => (XExn t s0 (x_discard s1 (S (length rest + length kept))), [], idle)
+                     | XErr => (XErr, [], idle)
+                     end)).
+        { intros st1 HN1 HS1 L1. assert (D := dispatch_D st1 (xkey e) (xarg e) N HN1 HS1).
+          destruct (dispatch rec st1 (xkey e) (xarg e)) as [st2|t s0 s1|]; simpl in *.
+          - destruct D as [D1 D2]. eapply okDloop_pre; [|apply IH]; simpl; try assumption; try lia.
+          - destruct D as [D1 D2]. split; [exact D1|simpl; lia].
+          - exact I. }
+        destruct mode as [|m]; [apply GO; [exact HN|exact HS|lia]|].
+        assert (P := eval_pred_D st p e N HN HS). destruct (eval_pred rec st p e) as [r v]. simpl in P.
+        destruct r as [st1|t s0 s1|]; simpl in *.
+        + destruct P as [P1 P2]. destruct m as [|m']; simpl; destruct v; try (apply GO; [lia|exact P1|exact P2]).
+          * eapply okDloop_pre; [exact P2|]. apply IH; [lia|exact P1| |]; simpl; rewrite <- app_assoc; simpl; assumption.
+          * split; [exact P1|]. split; [exact P2|]. split; assumption.
+        + destruct P as [P1 P2]. split; [exact P1|exact P2].
+        + exact I.
+    Qed.
+
+    Lemma put_back_sorted lo N st2 out :
+      SB N st2 -> N <= xnexts st2 -> lo <= N -> StronglySorted lt (seqs out) -> inb lo N out ->
+      SB lo (xu_pend st2 (out ++ xpend st2)).
+    Proof.
+      intros [S2 B2] HN L So Bo. split; simpl.
+      - unfold seqs. rewrite map_app. apply ss_app; [exact So|exact S2|].
+        intros x y Hx Hy. unfold seqs in *. apply in_map_iff in Hx. destruct Hx as [ex [Ex Hx]]. apply in_map_iff in Hy. destruct Hy as [ey [Ey Hy]].
+        unfold inb in *. rewrite Forall_forall in Bo, B2. specialize (Bo ex Hx). specialize (B2 ey Hy). lia.
+      - apply inb_app. split; [eapply inb_weaken; [apply Nat.le_refl|exact HN|exact Bo]|eapply inb_weaken; [exact L|apply Nat.le_refl|exact B2]].
+    Qed.
+
+    Lemma processing_D which mode p st temp remaining lo N :
+      lo <= N -> N <= xnexts st ->
+      StronglySorted lt (seqs temp) -> inb lo N temp ->
+      StronglySorted lt (seqs remaining) -> inb N (xnexts st) remaining ->
+      match processing rec which mode p st temp remaining with
+      | XOk st' => SB lo st' /\ xnexts st <= xnexts st'
+      | XExn _ _ s1 => SB lo s1 /\ xnexts st <= xnexts s1
+      | XErr => True
+      end.
+    Proof.
+      intros L HN St Bt Sr Br. unfold x_processing.
+      assert (LP := ploop_D mode p lo N temp (xu_pend (xu_count st (S (xcount st))) remaining) [] 0 HN (conj Sr Br) St Bt).
+      destruct (ploop rec mode p _ temp [] 0) as [[r kept] idle]. unfold okDloop in LP.
+      destruct r as [st2|t s0 s1|]; simpl in *.
+      - destruct LP as [A [B [C D]]]. split; [|exact B].
+        assert (X := put_back_sorted lo N st2 kept A (Nat.le_trans _ _ _ HN B) L C D).
+        unfold SB in *. simpl in *. exact X.
+      - destruct LP as [A B]. split; [|destruct (guard_raii which); simpl; exact B].
+        apply (SB_weaken N lo) in A; [|exact L]. destruct (guard_raii which); unfold SB in *; simpl; exact A.
+      - exact I.
+    Qed.
+
+    Lemma step_D st c : okD st (step rec st c).
+    Proof.
+      assert (Same : forall st', xpend st' = xpend st -> xnexts st' = xnexts st -> okD st (XOk st')).
+      { intros st' E1 E2 lo L S0. unfold SB in *. rewrite E1, E2. split; [exact S0|lia]. }
+      destruct c; simpl; try (apply Same; reflexivity).
+      - destruct (xlookup hb (xhregs st)) as [[k' b]|]; [|apply Same; reflexivity].
+        destruct (Nat.eqb k' k); [|intros lo L S0; exact I]. destruct (xhas b (xlst st k)); apply Same; reflexivity.
+      - destruct (xlookup h (xhregs st)) as [[k' b]|]; [|apply Same; reflexivity].
+        destruct (Nat.eqb k' k); [|intros lo L S0; exact I]. destruct (xhas b (xlst st k)); apply Same; reflexivity.
+      - destruct (xlookup h (xfregs st)) as [b|]; [|apply Same; reflexivity]. destruct (xhas b (xfilters st)); apply Same; reflexivity.
+      - apply dispatch_D.
+      - (* enqueue *)
+        intros lo L [S0 B0]. split; [|simpl; lia]. split; simpl.
+        + unfold seqs. rewrite map_app. apply ss_app; [exact S0|repeat constructor|].
+          intros x y Hx Hy. simpl in Hy. destruct Hy as [Hy|[]]. subst y. unfold seqs in Hx. apply in_map_iff in Hx.
+          destruct Hx as [ex [Ex Hx]]. unfold inb in B0. rewrite Forall_forall in B0. specialize (B0 ex Hx). lia.
+        + apply inb_app. split; [eapply inb_weaken; [apply Nat.le_refl| |exact B0]; lia|]. repeat constructor; simpl; lia.
+      - (* process *)
+        destruct (xpend st) as [|e0 rest0] eqn:E; [apply Same; [simpl; assumption|reflexivity]|].
+        intros lo L [S0 B0]. rewrite E in *.
+        apply (processing_D 0 0 0 st (e0 :: rest0) [] lo (xnexts st)); try assumption; try lia; constructor.
+      - (* processOne *)
+        destruct (xpend st) as [|e0 rest0] eqn:E; [apply Same; [simpl; assumption|reflexivity]|].
+        intros lo L [S0 B0]. rewrite E in *. simpl in S0. inversion S0 as [|? ? St Sh]; subst. inversion B0 as [|? ? Be Br]; subst.
+        apply (processing_D 1 0 0 st [e0] rest0 lo (S (xseq e0))); try lia.
+        + repeat constructor.
+        + repeat constructor; lia.
+        + exact St.
+        + unfold inb in *. rewrite Forall_forall in *. intros x Hx. specialize (Br x Hx). specialize (Sh (xseq x) (in_seqs x rest0 Hx)). lia.
+      - destruct (xpend st) as [|e0 rest0] eqn:E; [apply Same; [simpl; assumption|reflexivity]|].
+        intros lo L [S0 B0]. rewrite E in *.
+        apply (processing_D 2 1 p st (e0 :: rest0) [] lo (xnexts st)); try assumption; try lia; constructor.
+      - destruct (xpend st) as [|e0 rest0] eqn:E; [apply Same; [simpl; assumption|reflexivity]|].
+        intros lo L [S0 B0]. rewrite E in *.
+        apply (processing_D 3 2 p st (e0 :: rest0) [] lo (xnexts st)); try assumption; try lia; constructor.
+    Qed.
+
+    Lemma seq_D : forall cs st, okD st (seq rec st cs).
+    Proof.
+      induction cs as [|c r IH]; intros st; simpl; [intros lo L S0; split; [exact S0|lia]|].
+      assert (S := step_D st c). destruct (step rec st c) as [st1|t s0 s1|]; simpl in *; [|exact S|exact S].
+      eapply okD_pre; [|apply IH]. exact S.
+    Qed.
+  End LoopsD.
+
+  Theorem run_D : forall fuel st cs, okD st (run fuel st cs).
+  Proof. induction fuel as [|f IH]; intros st cs; simpl; [intros lo L S0; exact I|]. apply seq_D. exact IH. Qed.
+
+  Theorem main_D fuel : forall cs st st' lo, lo <= xnexts st -> SB lo st -> main fuel st cs = Some st' -> SB lo st' /\ xnexts st <= xnexts st'.
+  Proof.
+    induction cs as [|c r IH]; intros st st' lo L S0 H; simpl in H; [inversion H; subst; split; [exact S0|lia]|].
+    assert (D := run_D fuel st [c] lo L S0). destruct (run fuel st [c]) as [st1|t s0 s1|]; [| |discriminate]; destruct D as [D1 D2].
+    - destruct (IH st1 st' lo (Nat.le_trans _ _ _ L D2) D1 H) as [A B]. split; [exact A|lia].
+    - assert (S1 : SB lo (xlog s1 (XCaught t))) by exact D1.
+      destruct (IH (xlog s1 (XCaught t)) st' lo (Nat.le_trans _ _ _ L D2) S1 H) as [A B]. split; [exact A|simpl in B; lia].
+  Qed.
+
   (* ================================================================ F: the outermost caller; the state after a caught exception *)
 
   (* between the caller's commands nothing is in dispatch and every live payload is a queued event *)
@@ -483,15 +731,16 @@ End Proofs.
 Theorem empty_and_wait_correct st :
   xcount st = 0 -> x_empty_queue st = x_pend_empty st /\ x_can_process st = negb (x_pend_empty st).
 Proof.
-  intros H. unfold x_empty_queue, x_can_process, GenQ.can_process, GenQ.empty_queue, GenQ.can_notify. rewrite H. simpl.
-  rewrite !andb_true_r. split; reflexivity.
+  intros H. unfold x_empty_queue, x_can_process, GenQ.can_process, GenQ.empty_queue, GenQ.can_notify. rewrite H.
+  destruct (x_pend_empty st); split; reflexivity.
 Qed.
 
 (* while an event is in dispatch emptyQueue() is false *)
 Theorem empty_false_in_dispatch st : 1 <= xcount st -> x_empty_queue st = false.
 Proof.
   intros H. unfold x_empty_queue, GenQ.empty_queue.
-  assert (E : (Z.of_nat (xcount st) =? 0)%Z = false) by (apply Z.eqb_neq; lia). rewrite E. apply andb_false_r.
+  assert (E : (Z.of_nat (xcount st) =? 0)%Z = false) by (apply Z.eqb_neq; lia). rewrite E.
+  destruct (x_pend_empty st); reflexivity.
 Qed.
 
 (* ================================================================ the headers' facts (tie A) *)
